@@ -8,7 +8,7 @@ import numpy as np
 from . import gen_geom as gg
 from .ctx import stable_hash
 
-FORMS = ["direct", "sliced", "concat", "take", "pickle"]
+FORMS = ["direct", "sliced", "concat", "take", "pickle", "chunked"]
 
 
 def pick_subtypes(tier, seed, always=("float64",), n_quick=2):
@@ -52,6 +52,17 @@ def build_form(kind, elements, subtype, form, rng):
         inv = np.argsort(perm)
         src = gg.make_array(kind, [elements[i] for i in perm], subtype)
         return src.take(inv)
+    if form == "chunked":
+        # what a parquet read with several row groups hands to the constructor: a ChunkedArray
+        import pyarrow as pa
+        m = int(rng.integers(0, n + 1))
+        k1 = int(rng.choice([0, 1, 3]))
+        pad1 = [pad_element(kind, rng) for _ in range(k1)]
+        big = gg.make_array(kind, pad1 + list(elements), subtype)
+        data = big.data
+        chunks = [data[k1:k1 + m], data[k1 + m:]]
+        cls = gg.array_class(kind)
+        return cls(pa.chunked_array(chunks, type=data.type), dtype=big.dtype if kind != "point" else subtype)
     if form == "pickle":
         k1 = int(rng.choice([0, 1, 2, 8]))
         pad1 = [pad_element(kind, rng) for _ in range(k1)]
